@@ -116,12 +116,19 @@ def chain_case(draw):
         ctx = ctx or {}
         ctx["variable"] = draw(st.sampled_from([{"name": "old"}, {"name": "old", "unit": "V", "range": [0, 5]},
                                                 {"name": "xy", "dim": 2, "combine": [{"name": "x"}, {"name": "y"}]}]))
+    pre_same = False
+    if pre and draw(st.integers(0, 3)) == 0:
+        # the value comes from an earlier stage that used a variable of the same type as one of the chain
+        # (the chain's own types stay pairwise distinct): judged by Compose == Sequence only
+        pre_same = True
+        allv = [v for node in chain for v in (node["compose"] if "compose" in node else [node])]
+        pre[0]["type"] = draw(st.sampled_from(allv))["type"]
     data = draw(st.integers(-5, 5))
     if ctx is not None and draw(st.integers(0, 5)) == 0:
         data = [data, {"det": "A"}]
     return {"pre": pre, "chain": chain, "ctx": ctx, "data": data,
             "ctx_kind": draw(st.sampled_from(CTX_KINDS)),
-            "repeat": draw(st.integers(1, 3)),
+            "repeat": draw(st.integers(1, 3)), "pre_same": pre_same,
             "untyped_at": draw(st.one_of(st.none(), st.none(), st.integers(0, 4)))}
 
 
@@ -200,6 +207,13 @@ def judge_chain(case):
     has_kw = any("kw" in n for n in chain)
     if has_kw:
         classes.append("compose-with-attributes")
+    if case.get("pre_same"):
+        classes.append("incoming-type-equals-a-type-of-the-chain")
+        if not untyped and r_cmp != r_seq:
+            raise Violation("compose-differs-from-sequence",
+                            "(the value already carries a variable of a type used in the chain) Compose: %r\nSequence: %r\ncase %s" % (
+                                r_cmp[1], r_seq[1], short(case, 600)))
+        return {"nontrivial": True, "classes": classes}
     if not has_kw and (not untyped or untyped[0] == flat[-1]["name"]):
         # nesting does not matter either: the composition equals the plain sequence of its simple variables
         flat_vars = [build_var(s_, s_["name"] in untyped) for s_ in flat]
